@@ -1,6 +1,6 @@
 """C04 — area features and plumes occupy their declared footprint and depth range (structural necessary conditions)."""
 from .. import facts, run
-from ..rules import dep, footprint
+from ..rules import dep, footprint, pure, kernels
 
 
 def main(tier):
@@ -10,6 +10,8 @@ def main(tier):
     footprint.closed_extent(P, rep)
     footprint.alias_wrappers(P, rep)
     footprint.polygon_boundary(P, rep)
+    kernels.merge_structure(P, rep)    # local depth range: the listed depth values reach the depth surface
+    kernels.barycentric(P, rep)
     dep.alias_callers(P, rep)
     footprint.plume_sections(P, rep)
     footprint.angle_interpolation(P, rep)
@@ -17,6 +19,9 @@ def main(tier):
     footprint.plume_head(P, rep)
     dep.surface_pairing(P, rep)
     rep.assumptions.append("correctness of the winding-number test itself (polygon_contains_point_implementation) is NOT decided: geometry over reals")
+    # the answer does not depend on what was queried before (no cache that outlives a query: a necessary condition for a
+    # statement about 'all worlds and all points', which includes a second world in the same process)
+    pure.run(P, rep, pure.query_roots(P))
     rep.explanation = ("Closed depth intervals and polygon-test arguments of the extent tests, shape of the longitude-alias wrappers and their "
                        "exclusive use, plume bracket interpolation (each quantity from its own table with one fraction, front/back outside "
                        "the table), shorter-arc angle interpolation in its three cases, ellipse equation, depth-surface pairing.")
